@@ -342,9 +342,10 @@ fn gen_kv_ops(r: &mut Rng, odd_keys: bool) -> Vec<Value> {
                 };
                 let ext = *r.pick(&[".delta", ".pack", ".index", ""]);
                 let k = if r.chance(1, 5) && !keys.is_empty() { r.pick(&keys).clone() } else { format!("{}{}", stem, ext) };
-                let len = match r.below(5) {
-                    0 => 0,
-                    1 => 1,
+                let len = match r.below(12) {
+                    0 | 1 => 0,
+                    2 | 3 => 1,
+                    4 => 40000 + r.below(60000), // larger than any codec's internal buffer
                     _ => r.below(300),
                 };
                 let data: Vec<u8> = (0..len).map(|_| (r.next() & 0xff) as u8).collect();
@@ -363,8 +364,8 @@ fn gen_kv_ops(r: &mut Rng, odd_keys: bool) -> Vec<Value> {
                     let k = r.pick(&keys).clone();
                     let sz = sizes[&k];
                     if sz > 0 {
-                        let len = 1 + r.below(sz);
-                        let off = r.below(sz - len + 1);
+                        let len = if sz > 1000 && r.chance(1, 2) { 1 + r.below(6000) } else { 1 + r.below(sz) };
+                        let off = if sz > 1000 && r.chance(1, 2) { sz - len - r.below((sz - len).min(5000) + 1) } else { r.below(sz - len + 1) };
                         ops.push(json!(["rr", k, off, len]));
                     }
                 }
@@ -649,7 +650,7 @@ pub fn gen_requests(channel: &str, r: &mut Rng, count: usize) -> Vec<Value> {
         "kv" => {
             let mut i = 0;
             while out.len() < count {
-                let ops = gen_kv_ops(r, false);
+                let ops = gen_kv_ops(r, true);
                 out.push(json!(["kv", BACKENDS[i % BACKENDS.len()], ops]));
                 i += 1;
             }
